@@ -5,6 +5,7 @@ package gen
 import (
 	"fmt"
 	"math/rand/v2"
+	"net"
 	"strings"
 
 	"github.com/miekg/dns"
@@ -149,10 +150,11 @@ type Recipe struct {
 	Answer   []RRRef `json:"an,omitempty"`
 	Ns       []RRRef `json:"ns,omitempty"`
 	Extra    []RRRef `json:"ar,omitempty"`
-	EDNS     int     `json:"edns,omitempty"` // UDP size of an OPT record, 0 = none
+	EDNS     int     `json:"edns,omitempty"`  // UDP size of an OPT record, 0 = none
+	EOpts    int     `json:"eopts,omitempty"` // options carried by that OPT record: bit 0 a local option with data, 1 client subnet, 2 padding, 3 cookie
 	Compress bool    `json:"compress,omitempty"`
-	Pad      int     `json:"pad,omitempty"`   // extra TXT octets appended to the answer section
-	Token    string  `json:"token,omitempty"` // unique TXT marker appended to the additional section
+	Pad      int     `json:"pad,omitempty"`      // extra TXT octets appended to the answer section
+	Token    string  `json:"token,omitempty"`    // unique TXT marker appended to the additional section
 	LongName int     `json:"longname,omitempty"` // wire length (up to 255) of the owner name of an extra A record at the head of the answer section
 }
 
@@ -237,6 +239,19 @@ func (r *Recipe) Build() *dns.Msg {
 	if r.EDNS > 0 {
 		o := &dns.OPT{Hdr: dns.RR_Header{Name: ".", Rrtype: dns.TypeOPT}}
 		o.SetUDPSize(uint16(r.EDNS))
+		// options whose values are octet strings and addresses: what a decoder is tempted to leave pointing into its input
+		if r.EOpts&1 != 0 {
+			o.Option = append(o.Option, &dns.EDNS0_LOCAL{Code: 65001, Data: []byte("local-option-data-" + r.Token + "-0123456789abcdef")})
+		}
+		if r.EOpts&2 != 0 {
+			o.Option = append(o.Option, &dns.EDNS0_SUBNET{Code: dns.EDNS0SUBNET, Family: 1, SourceNetmask: 24, Address: net.IP{198, 51, 100, 0}.To4()})
+		}
+		if r.EOpts&4 != 0 {
+			o.Option = append(o.Option, &dns.EDNS0_PADDING{Padding: make([]byte, 21)})
+		}
+		if r.EOpts&8 != 0 {
+			o.Option = append(o.Option, &dns.EDNS0_COOKIE{Code: dns.EDNS0COOKIE, Cookie: "24a5ac1122334455"})
+		}
 		m.Extra = append(m.Extra, o)
 	}
 	return m
@@ -280,6 +295,9 @@ func Random(r *rand.Rand, size int) *Recipe {
 	rc.Answer, rc.Ns, rc.Extra = mk(n()), mk(n()), mk(n())
 	if r.IntN(3) == 0 {
 		rc.EDNS = []int{512, 1232, 4096}[r.IntN(3)]
+		if r.IntN(2) == 0 {
+			rc.EOpts = 1 + r.IntN(15)
+		}
 	}
 	// names at the 255-octet limit, in the question or as an owner
 	switch r.IntN(24) {
